@@ -1,6 +1,7 @@
 import Falcon.Props.C11
 import Falcon.Lemmas.BabaiAlg
 import Falcon.Lemmas.TowerAlg
+import Falcon.Lemmas.Karatsuba
 import Falcon.Model.KeygenSkel
 
 /-!
@@ -109,6 +110,35 @@ theorem ntru_base_accepts_coprime (a b : Int) (p : Int × Int) (h : RingZ.ntruBa
 
 example : RingZ.ntruBase 2 13 = some (-12289, -6 * 12289) := by decide +kernel
 example : RingZ.ntruBase 6 4 = none := by decide +kernel
+
+/-- `vector_karatsuba` (model `RingZ.karatsuba`: three half-size products recombined with overlapping additions,
+    schoolbook base case at n ≤ 8; compared with the real function on every run) computes the polynomial product on
+    operands of length 2^k, for every k: right length and right value at every point of every commutative ring -/
+theorem karatsuba_is_the_product {R : Type} [CommRing R] (k : Nat) (a b : List Int) (ha : a.length = 2 ^ k)
+    (hb : b.length = 2 ^ k) :
+    (RingZ.karatsuba a b).length = 2 * 2 ^ k - 1 ∧ ∀ ρ : R, RingZ.ev (RingZ.karatsuba a b) ρ = RingZ.ev a ρ * RingZ.ev b ρ :=
+  RingZ.karatsuba_spec k a b ha hb
+
+/-- **the product as the code computes it, `a.karatsuba(b).reduce_by_cyclotomic(n)`, is the negacyclic product**
+    a ⋆ b of ℤ[X]/(Xⁿ+1), coefficient for coefficient, for n = 2^k (integer lists of length n are determined by their
+    values at the roots of Xⁿ+1: `RingZ.ev_ext`, through the ring ℤ[X]/(Xⁿ+1)) -/
+theorem code_product_is_negacyclic (k : Nat) (a b : List Int) (ha : a.length = 2 ^ k) (hb : b.length = 2 ^ k) :
+    RingZ.kmul (2 ^ k) a b = RingZ.negacyc (2 ^ k) a b := RingZ.kmul_eq_negacyc k a b ha hb
+
+/-- so the lifting step as math.rs computes it is the modelled one -/
+theorem lift_step_as_coded (k : Nat) (f g cF' cG' : List Int) (hf : f.length = 2 ^ (k + 1)) (hg : g.length = 2 ^ (k + 1))
+    (hF : cF'.length = 2 ^ k) (hG : cG'.length = 2 ^ k) :
+    RingZ.liftStepImpl (2 ^ (k + 1)) f g cF' cG' = RingZ.liftStep (2 ^ (k + 1)) f g cF' cG' :=
+  RingZ.liftStepImpl_eq k f g cF' cG' hf hg hF hG
+
+/-- NTRUSolve at the level of coefficients: every returned pair satisfies f⋆G − g⋆F = (q, 0, …, 0) in ℤ[X]/(Xⁿ+1) —
+    the proposition the per-key exact check evaluates -/
+theorem ntru_solve_exact (ks : Nat → List Int → List Int → List (List Int)) (d : Nat) (f g cF cG : List Int)
+    (hf : f.length = 2 ^ d) (hg : g.length = 2 ^ d) (hs : RingZ.ntruSolve RingZ.xgcd ks d f g = some (cF, cG)) :
+    RingZ.ntruLhs (2 ^ d) f g cF cG = (12289 : Int) :: List.replicate (2 ^ d - 1) 0 :=
+  RingZ.ntruSolve_exact ks d f g cF cG hf hg hs
+
+example : RingZ.kmul 2 [1, 2] [3, 4] = [-5, 10] ∧ RingZ.negacyc 2 [1, 2] [3, 4] = [-5, 10] := by decide
 
 /-- non-vacuity: the model of NTRUSolve on (f, g) = (1 + X, 3 + 2X) (n = 2; N f = 2, N g = 13, −6·2 + 1·13 = 1, no Babai
     rounds) returns a pair that solves the equation over ℤ -/
